@@ -113,7 +113,11 @@ def lattice(j, cases):
                 q = np.r_[2.0, v] * s
                 qn = float(np.linalg.norm(q))
                 for site, fn in {"base.unit": lambda x: b.unit(x), "Quaternion.unit": lambda x: Quaternion(x).unit().vec,
-                                 "UnitQuaternion(v)": lambda x: UnitQuaternion(x).vec}.items():
+                                 "UnitQuaternion(v)": lambda x: UnitQuaternion(x).vec,
+                                 # a UnitQuaternion OBJECT that holds a non-unit value (built with norm=False) is
+                                 # normalised by unit() like any quaternion; the N x 4 array form normalises every row
+                                 "UnitQuaternion(v,norm=False).unit": lambda x: UnitQuaternion(x, norm=False, check=False).unit().vec,
+                                 "UnitQuaternion(Nx4)": lambda x: UnitQuaternion(np.array([x, 2 * x]))[0].vec}.items():
                     cid = (site, feat)
                     u = guard(j, site, feat, {"q": q.tolist()}, cid, lambda: np.asarray(fn(q), dtype=float))
                     if u is None:
